@@ -22,6 +22,7 @@ outcome. (`transparent`, `transparent_bytes`, `final_shape_no101` keep the older
 -/
 import CaddyModel.C15.Lemmas
 import CaddyModel.C15.Witness
+import CaddyModel.C15.Writer
 import CaddyModel.Gen.Encode
 import CaddyModel.Gen.ProxyFlush
 import CaddyModel.Gen.DirectiveOrder
@@ -1011,5 +1012,169 @@ example : ((rwWriteHeader (St.init vGzip false : St Nat) 103).log, (rwWriteHeade
 -- `decision_once`: a committed, encoding writer stays encoding through any further calls
 example : (run exCfg (St.init vZstd false) exOps).wroteHeader = true ∧ (run exCfg (St.init vZstd false) exOps).encOpen = true := by
   decide
+
+/-! ### the responseWriter's per-request state; sequences of requests on ONE Encode instance; bodiless responses -/
+
+section
+variable {α : Type}
+
+/-- the writer `openResponseWriter` makes IS the initial state of the main model — whatever the memory it
+    occupies held before (`var rw responseWriter` is the zero value) -/
+theorem open_response_writer_is_fresh (mem : RW) (name : Bytes) (ic : Bool) :
+    (St.ofRW (openResponseWriter mem name ic) : St α) = St.init name ic := rfl
+
+/-- **a request's outcome is a function of this request's handler actions and the configuration only.** Any
+    number of requests, one after the other, on one `Encode` instance, starting from any leftover writer memory:
+    the k-th result is `serve` of the k-th request alone. -/
+theorem request_outcome_is_its_own (cfg : Cfg α) (offered prefer : List Bytes) :
+    ∀ (reqs : List (Req × List (Op α))) (mem : RW),
+      serveRequests openResponseWriter cfg offered prefer mem reqs =
+        reqs.map (fun r => serve cfg offered prefer r.1 r.2)
+  | [], _ => rfl
+  | r :: rest, mem => by
+    have h1 : (serveFrom openResponseWriter cfg offered prefer mem r.1 r.2).1 = serve cfg offered prefer r.1 r.2 := by
+      unfold serveFrom serve
+      cases chooseEncoding offered prefer r.1 <;> rfl
+    simp only [serveRequests, List.map_cons]
+    rw [h1, request_outcome_is_its_own cfg offered prefer rest]
+
+/-- the encoder objects the instance DOES hand from response to response do not show either: driven by the
+    encoder calls of the successive responses of the main model, one pool slot — in whatever state it starts —
+    emits for each response what a brand-new encoder emits for that response alone -/
+theorem encoder_reuse_across_requests_invisible (cfg : Cfg α) (offered prefer : List Bytes)
+    (reqs : List (Req × List (Op α))) (mem : RW) (slot : Option (EncObj α)) (i0 : Nat) :
+    serveSeq slot (numbered i0 (serveRequests openResponseWriter cfg offered prefer mem reqs)) =
+      (numbered i0 (reqs.map (fun r => serve cfg offered prefer r.1 r.2))).map
+        (fun r => (serveWithPool none r.1 r.2).1) := by
+  rw [request_outcome_is_its_own, pooled_sequence_independent]
+
+end
+
+/-- configuration and client of the witnesses below: gzip offered and accepted, every response eligible -/
+def mrCfg : Cfg Nat := ⟨512, fun _ _ => true, id, fun _ => []⟩
+def mrReq : Req := ⟨false, vGzip, false, [], []⟩
+
+/-- a writer that is taken back from a pool of writers WITHOUT zeroing (`reuseResponseWriter`, not the code)
+    shows the previous request: after any response `wroteHeader` is still true, so the next handler's
+    `WriteHeader(404)` is never forwarded and the client is told 200 -/
+theorem pooled_writer_would_leak :
+    (serveRequests reuseResponseWriter mrCfg [vGzip] [] RW.zero
+        [(mrReq, [.write 10]), (mrReq, [.writeHeader 404, .write 10])]).map (fun r => r.final.sent.map (·.1))
+      = [some 200, some 200] ∧
+    (serve mrCfg [vGzip] [] mrReq [.writeHeader 404, .write 10]).final.sent.map (·.1) = some 404 := by decide
+
+-- the same two requests through the code's `openResponseWriter`: 200 then 404; and two encoded responses in a row
+example : (serveRequests openResponseWriter mrCfg [vGzip] [] ⟨[1], true, 500, true, true⟩
+    [(mrReq, [.write 10]), (mrReq, [.writeHeader 404, .write 10])]).map (fun r => r.final.sent.map (·.1))
+      = [some 200, some 404] := by decide
+example : numbered 0 (serveRequests openResponseWriter mrCfg [vGzip] [] RW.zero
+    [(mrReq, [.write 600, .flush, .write 5]), (mrReq, [.write 700])]) =
+      [(0, [.write 600, .flush, .write 5]), (1, [.write 700])] := by decide
+
+/-- **responseWriter values are created per request, as zero values**: in the source the only place such a
+    value comes into being is `var rw responseWriter` in `openResponseWriter` (no composite literal, no `new`,
+    nothing taken out of a pool or cache), `initResponseWriter` assigns exactly the four fields it is given, and
+    the fields left at zero are `w`, `statusCode`, `wroteHeader` — what `RW.zero` / `St.init` say. A pool of
+    writers, a cached writer or a new field changes the regenerated facts and this obligation breaks. -/
+theorem response_writer_fresh_matches_source :
+    rwOrigins = CaddyModel.Gen.encodeResponseWriterOrigins ∧
+    rwStructFields = CaddyModel.Gen.encodeResponseWriterFields ∧
+    rwFieldsAssignedByInit = CaddyModel.Gen.encodeInitResponseWriterAssigns ∧
+    rwStructFields.filter (fun f => !rwFieldsAssignedByInit.contains f) = rwFieldsLeftZero := by decide
+
+section
+variable {α : Type}
+
+/-- a bodiless call (header edit, `WriteHeader` other than 101) on an uncommitted non-CONNECT writer leaves it
+    uncommitted: nothing is decided, nothing is sent as final -/
+theorem bodiless_keeps_uncommitted (cfg : Cfg α) (st : St α) (op : Op α) (hb : op.bodiless = true)
+    (hc : st.isConnect = false) (hw : st.wroteHeader = false) (hs : st.sent = none) (ho : st.encOpen = false) :
+    (step cfg st op).isConnect = false ∧ (step cfg st op).wroteHeader = false ∧ (step cfg st op).sent = none ∧
+      (step cfg st op).encOpen = false ∧ (step cfg st op).encName = st.encName := by
+  cases op with
+  | writeHeader s =>
+    have h101 : s ≠ 101 := by simpa [Op.bodiless] using hb
+    simp only [step, rwWriteHeader, informational, connectImmediate, vary304, dsWriteHeader]
+    by_cases h1 : is1xx s = true <;> by_cases h2 : (s == 304 && !hasVary st.hdr) = true <;>
+      simp [h1, h2, hc, hw, hs, ho, isInformational, h101]
+  | write p => simp [Op.bodiless] at hb
+  | flush => simp [Op.bodiless] at hb
+  | readFrom cs => simp [Op.bodiless] at hb
+  | hset k v => simp [step, hc, hw, hs, ho]
+  | hadd k v => simp [step, hc, hw, hs, ho]
+  | hdel k => simp [step, hc, hw, hs, ho]
+
+theorem bodiless_run_uncommitted (cfg : Cfg α) : ∀ (ops : List (Op α)) (st : St α),
+    (∀ op ∈ ops, op.bodiless = true) → st.isConnect = false → st.wroteHeader = false → st.sent = none →
+    st.encOpen = false →
+    (run cfg st ops).wroteHeader = false ∧ (run cfg st ops).sent = none ∧ (run cfg st ops).encOpen = false ∧
+      (run cfg st ops).encName = st.encName
+  | [], st, _, _, hw, hs, ho => ⟨hw, hs, ho, rfl⟩
+  | op :: rest, st, hb, hc, hw, hs, ho => by
+    obtain ⟨a, b, c, d, e⟩ := bodiless_keeps_uncommitted cfg st op (hb op (List.mem_cons_self ..)) hc hw hs ho
+    have ih := bodiless_run_uncommitted cfg rest (step cfg st op)
+      (fun o ho' => hb o (List.mem_cons_of_mem _ ho')) a b c d
+    show (run cfg (step cfg st op) rest).wroteHeader = false ∧ _
+    rw [← e]; exact ih
+
+/-- **the deferred `Close` of an uncommitted writer relabels all or nothing.** Either the declared
+    `Content-Length` exceeds `minimum_length` and the header is eligible — then the client is sent `init`'s edit of
+    the handler's header (all five edits together) under the handler's status, and the encoder is opened and
+    closed; or not — then the header map is not touched at all and whatever is sent is the handler's own header. -/
+theorem close_relabels_all_or_nothing (cfg : Cfg α) (st : St α)
+    (hw : st.wroteHeader = false) (hs : st.sent = none) (ho : st.encOpen = false) :
+    ((clGtMin cfg st.hdr && initOk cfg st) = true ∧
+        (rwClose cfg st).sent = some (closeStatus st, initHdr st.encName st.hdr) ∧
+        (rwClose cfg st).log.head? = some Ev.ec) ∨
+    ((clGtMin cfg st.hdr && initOk cfg st) = false ∧ (rwClose cfg st).hdr = st.hdr ∧
+        (rwClose cfg st).encOpen = false ∧ ∀ s h, (rwClose cfg st).sent = some (s, h) → h = st.hdr) := by
+  by_cases h1 : clGtMin cfg st.hdr = true <;> by_cases h2 : initOk cfg st = true <;>
+    by_cases h3 : st.statusCode = 0 <;> by_cases h4 : isInformational st.statusCode = true <;>
+    simp [rwClose, closeHeader, commitHeader, rwInit, encClose, implicitHeader, dsWriteHeader, fixSent, closeStatus,
+      h1, h2, h3, h4, hw, hs, ho]
+
+/-- **bodiless responses (HEAD answered from metadata, 204, 304, 1xx then nothing …) are relabelled all or
+    nothing.** For every script of header edits and `WriteHeader` calls (any number, any order, any status but
+    101), with `h0` the header map as the handler left it: either the response is announced as encoded — then the
+    header the client receives is `init`'s edit of `h0`: `Content-Encoding` is the coding, NO `Content-Length` of
+    the identity representation remains, no `Accept-Ranges`, `Vary` lists `Accept-Encoding` (the ETag is adjusted by
+    `etag_when_encoded`), and `h0` was eligible with a declared length above the minimum — or nothing is
+    relabelled: the header map is `h0` and what is sent is `h0`. There is no third case (such as
+    `Content-Encoding` set while the identity `Content-Length` stays). -/
+theorem bodiless_response_all_or_nothing (cfg : Cfg α) (name : Bytes) (ops : List (Op α))
+    (hb : ∀ op ∈ ops, op.bodiless = true) :
+    (∃ s h, (runWrapped cfg name false ops).sent = some (s, h) ∧
+        h = initHdr name (run cfg (St.init name false) ops).hdr ∧
+        hValues h kCE = [name] ∧ hValues h kCL = [] ∧ hValues h kAR = [] ∧ hasVary h = true ∧
+        clGtMin cfg (run cfg (St.init name false) ops).hdr = true ∧
+        initOk cfg (run cfg (St.init name false) ops) = true) ∨
+    ((runWrapped cfg name false ops).hdr = (run cfg (St.init name false) ops).hdr ∧
+      ∀ s h, (runWrapped cfg name false ops).sent = some (s, h) →
+        h = (run cfg (St.init name false) ops).hdr) := by
+  obtain ⟨hw, hs, ho, hn⟩ := bodiless_run_uncommitted cfg ops (St.init name false) hb rfl rfl rfl rfl
+  have hn' : (run cfg (St.init name false) ops).encName = name := hn
+  rcases close_relabels_all_or_nothing cfg _ hw hs ho with ⟨hc, hsent, _⟩ | ⟨_, hh, _, hall⟩
+  · left
+    rw [hn'] at hsent
+    simp only [Bool.and_eq_true] at hc
+    exact ⟨_, _, hsent, rfl, initHdr_CE _ _, initHdr_CL _ _, initHdr_AR _ _, initHdr_vary _ _, hc.1, hc.2⟩
+  · right
+    exact ⟨hh, hall⟩
+
+end
+
+-- HEAD answered from metadata: Content-Type, a declared length of 2000, a strong tag, 200, no body — relabelled
+-- as a whole: gzip, no Content-Length, adjusted tag
+example : (∀ op ∈ ([.hset kCT exTextHtml, .hset kCL [50, 48, 48, 48], .hset kEtag exTag, .writeHeader 200] : List (Op Nat)),
+      op.bodiless = true) ∧
+    (runWrapped exCfg vGzip false [.hset kCT exTextHtml, .hset kCL [50, 48, 48, 48], .hset kEtag exTag, .writeHeader 200]).sent.map
+      (fun x => (x.1, hValues x.2 kCE, hValues x.2 kCL, hValues x.2 kEtag)) = some (200, [vGzip], [], [adjustEtag vGzip exTag]) := by
+  decide
+-- 304 with a small declared length: nothing relabelled, Content-Length stays, Vary added by WriteHeader itself
+example : (runWrapped exCfg vGzip false [.hset kCT exTextHtml, .hset kCL [53], .writeHeader 304]).sent.map
+      (fun x => (x.1, hValues x.2 kCE, hValues x.2 kCL, hasVary x.2)) = some (304, [], [[53]], true) := by decide
+-- hypotheses of `close_relabels_all_or_nothing` / `bodiless_keeps_uncommitted`
+example : (St.init vGzip false : St Nat).wroteHeader = false ∧ (St.init vGzip false : St Nat).sent = none ∧
+    (St.init vGzip false : St Nat).encOpen = false ∧ (Op.writeHeader 204 : Op Nat).bodiless = true := by decide
 
 end CaddyModel.C15
